@@ -167,6 +167,8 @@ def warm_call(draw):
         g2 = [x for x in draw(_GROUP) if x not in g1]
         return ["get_kappa_X", [g1, g2] if g2 and draw(st.booleans()) else [g1]]
     if k == 7:
+        if draw(st.booleans()):
+            return ["phospho_cycle", [draw(st.integers(1, 4)), draw(st.booleans())]]
         return ["set_phosphosites", [draw(st.lists(st.integers(-2, 40), min_size=1, max_size=4))]]
     if k == 8:
         if draw(st.booleans()):
@@ -183,3 +185,55 @@ def warm_call(draw):
 def warmups(max_calls=4):
     """Empty half of the time, otherwise 1..max_calls generated API calls."""
     return st.one_of(st.just([]), st.lists(warm_call(), min_size=1, max_size=max_calls))
+
+
+# ---------------------------------------------------------------------------------------------
+# long, highly charged sequences (dtype overflow, block-wise vectorisation and similar only show beyond ~128 residues)
+
+@st.composite
+def long_charged(draw, min_len=129, max_len=400):
+    n = draw(st.one_of(st.integers(min_len, max_len), st.sampled_from([129, 130, 200, 256, 257, 260, 300])))
+    n = max(min_len, min(max_len, n))
+    kind = draw(st.sampled_from(["homopolymer", "diblock", "alternating", "random-charged", "mostly-charged", "two-letter"]))
+    if kind == "homopolymer":
+        s = draw(st.sampled_from(list("KREDHCY"))) * n
+    elif kind == "diblock":
+        a, b = draw(st.sampled_from(["KE", "EK", "RD", "DR", "KG", "EG"]))
+        cut = draw(st.integers(1, n - 1))
+        s = a * cut + b * (n - cut)
+    elif kind == "alternating":
+        unit = draw(st.sampled_from(["EK", "KE", "EEKK", "EEEEG", "KKKKS", "RD"]))
+        s = (unit * (n // len(unit) + 1))[:n]
+    elif kind == "random-charged":
+        s = draw(exact_words("KRDE", n))
+    elif kind == "two-letter":
+        s = draw(exact_words(draw(st.sampled_from(["KE", "KG", "EG", "RS", "DP"])), n))
+    else:
+        s = draw(exact_words("KKKKEEEERRDD" + "GSTPAQ", n))
+    # a few substitutions so that the sequence is not perfectly regular
+    lst = list(s)
+    for _ in range(draw(st.integers(0, 3))):
+        lst[draw(st.integers(0, n - 1))] = draw(st.sampled_from(list(AA)))
+    return "".join(lst)
+
+
+@st.composite
+def neighbour_compositions(draw, min_len=101, max_len=320, cheap=True):
+    """Several compositions of one length > 100 that differ by one residue (to be analysed one after another in the same
+    process: shared memo tables keyed on rounded fractions collide exactly here)."""
+    N = draw(st.one_of(st.integers(min_len, max_len), st.integers(max(min_len, 200), max_len)))
+    if cheap:
+        # regimes whose documented search is small (>=18 neutrals: 49 candidates; no neutrals: N candidates, short N only)
+        Z = draw(st.integers(18, max(18, N - 4))) if (N > 160 or draw(st.booleans())) else 0
+    else:
+        Z = draw(st.integers(0, N - 2))
+    C = N - Z
+    P = draw(st.integers(0, C))
+    M = C - P
+    comps = [(P, M, Z)]
+    for dP, dM in draw(st.permutations([(1, 0), (0, 1), (-1, 0), (0, -1), (1, -1), (-1, 1)]))[:draw(st.integers(1, 3))]:
+        p, m = P + dP, M + dM
+        z = N - p - m
+        if p >= 0 and m >= 0 and z >= 0 and (p, m, z) not in comps:
+            comps.append((p, m, z))
+    return [list(c) for c in comps]
